@@ -628,11 +628,15 @@ def run_api_case(L: ApiLayout, case: dict) -> list[dict]:
         ng.glob()
         matches = [str(m) for m in ng.files()]
         exc = None
+        ret = None
         try:
-            api.static(*lits, pattern)
+            ret = api.static(*lits, pattern)
         except Exception as e:  # noqa: BLE001
             exc = e
         call = last("declare_static")
+        if ret is not None:
+            # what static() hands back designates, from the caller's directory, the files it was given
+            add("static.return", "echo", "cwd", False, [(p_, "echo") for p_ in lits + matches], ret)
         if call is not None:
             _job, tr_trees, tr_files, tr_patterns = call[1]
             is_dir = lambda p: os.path.isdir(posixpath.normpath(os.path.join(cwd_abs, p)))  # noqa: E731
@@ -730,6 +734,8 @@ async def correspond_api(ctx):
             L = r.choice(layouts)
             case = gen_api_case(r, L)
             for g in run_api_case(L, case):
+                if g["direction"] == "echo":
+                    continue  # decided on the file system by check_api_case; no model line
                 jobs.append((L, case, g, api_lines(L, case, g)))
         answers = common.run_driver([ln for j in jobs for ln in j[3]]) if jobs else []
         pos = 0
@@ -776,6 +782,20 @@ def check_api_case(L: ApiLayout, case: dict) -> list[tuple[str, str, object, obj
         if g["error"] is not None:
             if g["unexpected"]:
                 bad.append((f"api-{scope}-raises", f"{scope}() raises for ordinary arguments", g["error"], "accepted"))
+            continue
+        if g["direction"] == "echo":
+            meant = sorted({loc(cwd_abs, given) for given, _ in g["items"]})
+            are = sorted({loc(cwd_abs, rec) for rec in g["got"]})
+            if meant != are:
+                bad.append((f"api-{scope}-wrong-file",
+                            f"{scope}: a path handed back to the step designates another file than the one given",
+                            {"given": [i[0] for i in g["items"]], "observed": g["got"], "designate": are}, meant))
+            else:
+                slash = [rec for rec in g["got"] if rec.endswith("/") != os.path.isdir(loc(cwd_abs, rec))]
+                if slash:
+                    bad.append((f"api-{scope}-label-not-canonical",
+                                f"{scope}: a trailing separator that does not say whether the path is a directory",
+                                {"observed": g["got"]}, slash))
             continue
         frm = posixpath.normpath(os.path.join(cwd_abs, wd)) if g["base"] == "wd" else cwd_abs
         wd_abs_arg = g["base"] == "wd" and wd.startswith("/")
